@@ -6,6 +6,7 @@ import (
 
 	"github.com/canopy-network/canopy/fsm"
 	"github.com/canopy-network/canopy/lib"
+	"github.com/canopy-network/canopy/lib/crypto"
 )
 
 // C14, state-machine side. The nested committee (stub quorum, real keys, see dex.go) certifies
@@ -16,15 +17,16 @@ import (
 // take more than MaxSlashPerCommittee percent of a validator's stake within one block.
 
 type slashWorld struct {
-	certs map[string][]*lib.DoubleSigner // certificate-results tx bytes -> certified slash list
-	done  map[string]map[uint64]bool     // validator address -> heights already slashed
-	v2At  uint64                         // first height at which protocol v2 is active (^0 = never)
-	prev  *snapshot
+	certs  map[string][]*lib.DoubleSigner // certificate-results tx bytes -> certified slash list
+	done   map[string]map[uint64]bool     // validator address -> heights already slashed
+	v2At   uint64                         // first height at which protocol v2 is active (^0 = never)
+	oracle bool                           // C14 runs: evaluate the stake ledger (C12 runs only want the slashes to happen)
+	prev   *snapshot
 }
 
 func (w *world) slashGenesis() {
 	t := w.c.T
-	w.slash = &slashWorld{certs: map[string][]*lib.DoubleSigner{}, done: map[string]map[uint64]bool{}, v2At: ^uint64(0)}
+	w.slash = &slashWorld{certs: map[string][]*lib.DoubleSigner{}, done: map[string]map[uint64]bool{}, v2At: ^uint64(0), oracle: w.c.Prop == "C14"}
 	for _, v := range w.genesis.Validators {
 		if !v.Delegate {
 			v.Committees = []uint64{1, nestedId}
@@ -61,6 +63,22 @@ func (w *world) slashList(sm *fsm.StateMachine) []*lib.DoubleSigner {
 	n := 1 + t.Pick(4, 2, 1)
 	for i := 0; i < n; i++ {
 		m := vs.ValidatorSet.ValidatorSet[t.Intn(len(vs.ValidatorSet.ValidatorSet))]
+		if t.Chance(1, 3) {
+			// any staked validator, member of the committee or not (unstaking, paused)
+			var all []*actor
+			for _, a := range w.actors {
+				if a.kind == "bls" && !a.stranger {
+					// delegates never sign certificates, so no evidence can name them: a certified list that
+					// slashes a delegate is not something a +2/3 honest quorum produces (out of contract)
+					if v, _ := sm.GetValidator(crypto.NewAddressFromBytes(a.addr)); v != nil && !v.Delegate {
+						all = append(all, a)
+					}
+				}
+			}
+			if len(all) > 0 {
+				m = &lib.ConsensusValidator{PublicKey: all[t.Intn(len(all))].key.PublicKey().Bytes()}
+			}
+		}
 		var hs []uint64
 		for k, nh := 0, 1+t.Pick(4, 3, 2, 1); k < nh; k++ {
 			hs = append(hs, uint64(1+t.Intn(6)))
@@ -86,7 +104,7 @@ func (w *world) slashList(sm *fsm.StateMachine) []*lib.DoubleSigner {
 func (w *world) checkSlashing(n *node, cur *snapshot, what string, blockTxs [][]byte) {
 	c := w.c
 	sw := w.slash
-	if sw == nil {
+	if sw == nil || !sw.oracle {
 		return
 	}
 	prev := sw.prev
